@@ -47,6 +47,10 @@ Specs ==
   \* destination is: an existing tag is not replaced without force, whatever the source is called)
   \cup (IF tspec = "none" THEN {}
         ELSE IF tspec = "cross" THEN {[src |-> "heads/main", dst |-> "tags/v1", force |-> FALSE]}
+        \* "fold": a second refspec maps ANOTHER ref of the sending side (its tag) onto the destination of the first.
+        \* Which of the two the destination gets is not fixed by any statement (Export.either lists both); that
+        \* it ends on a commit whose history is complete (C09) is
+        ELSE IF tspec = "fold" THEN {[src |-> "tags/v1", dst |-> "remotes/origin/main", force |-> FALSE]}
         ELSE {[src |-> "tags/v1", dst |-> "tags/v1", force |-> tspec = "force"]})
   \cup (IF Twin THEN {[src |-> "heads/twin", dst |-> IF op = "fetch" THEN "remotes/origin/twin" ELSE "heads/twin", force |-> FALSE]}
         ELSE {})
@@ -65,6 +69,7 @@ Export == [op |-> op,
            specs |-> IF op = "merge" THEN {<<"heads/other", "heads/main", FALSE>>} ELSE {<<s.src, s.dst, s.force>> : s \in Specs},
            mode |-> tspec,
            gforce |-> gforce, depth |-> depth, twin |-> tw,
+           either |-> IF tspec = "fold" THEN {<<"remotes/origin/main", {bs, ts}>>} ELSE {},
            refs |-> Pairs(ExpectRefs), rejected |-> ExpectRejected]
 
 Init == /\ op \in Ops /\ bs \in BranchSrc /\ bd \in BranchDst /\ f1 \in BOOLEAN /\ gforce \in BOOLEAN
@@ -84,6 +89,7 @@ Next == MergeNext \/
         \* (with "cross" the sending side has no tag of that name: two sources for one destination is not a case
         \*  the statement speaks about)
         /\ tspec' = "cross" => ts' = None
+        /\ tspec' = "fold" => op = "fetch" /\ ts' # None /\ td' = None /\ bd = None /\ depth' = 0 /\ ts' # bs
         \* the second branch only where no tag is involved (keeps the universe small)
         /\ tw' \in (IF ts' = None /\ td' = None /\ tspec' = "none" THEN TwinDst ELSE {None})
         /\ UNCHANGED <<op, bs, bd, f1, gforce>>
